@@ -38,6 +38,10 @@ type tv struct {
 	V   string `json:"v,omitempty"`   // unfolded walker text
 	Err string `json:"err,omitempty"` // decode error of the oracle round trip
 	Eq  string `json:"eq,omitempty"`  // oracle entries: the property's equality between the original and the plain round trip
+	// the round trip of this value ALONE into the type (Ty/V/Eq are for the value as an element of its list)
+	Solo    string `json:"solo,omitempty"`
+	SoloErr string `json:"solo_err,omitempty"`
+	SoloEq  string `json:"solo_eq,omitempty"`
 }
 
 type kv struct {
@@ -102,6 +106,75 @@ func ioRoundTrip(v interface{}, t reflect.Type, writerSimple bool, readerOpts op
 		data := append([]byte{}, enc.Bytes()...)
 		dec := newDecoder(data, readerOpts, writerSimple)
 		out = dec.Read(t)
+		if dec.Error != nil {
+			err = dec.Error.Error()
+		}
+	})
+	if p != "" {
+		err = "panic: " + p
+	}
+	return
+}
+
+// ioTupleRoundTrip: the values written as ONE list by the io encoder and read back element by element, element i
+// into types[i] (nil = interface{}), with nothing but the public io API: what "a list read into a tuple of types" means.
+func ioTupleRoundTrip(vals []interface{}, types []reflect.Type, writerSimple bool, readerOpts optsJ) (out []interface{}, errs []string) {
+	out = make([]interface{}, len(vals))
+	errs = make([]string, len(vals))
+	p := safely(func() {
+		enc := hio.NewEncoder(nil).Simple(writerSimple)
+		if e := enc.Write(vals); e != nil {
+			for i := range errs {
+				errs[i] = "encode: " + e.Error()
+			}
+			return
+		}
+		data := append([]byte{}, enc.Bytes()...)
+		dec := newDecoder(data, readerOpts, writerSimple)
+		if tag := dec.NextByte(); tag != hio.TagList {
+			for i := range errs {
+				errs[i] = "not a list"
+			}
+			return
+		}
+		count := dec.ReadInt()
+		dec.AddReference(nil)
+		for i := 0; i < count && i < len(vals); i++ {
+			var t reflect.Type
+			if i < len(types) {
+				t = types[i]
+			}
+			out[i] = dec.Read(t)
+			if dec.Error != nil {
+				// the decoder's error is sticky: everything from here on is unreliable
+				for j := i; j < len(vals); j++ {
+					errs[j] = dec.Error.Error()
+				}
+				return
+			}
+		}
+	})
+	if p != "" {
+		for i := range errs {
+			if errs[i] == "" {
+				errs[i] = "panic: " + p
+			}
+		}
+	}
+	return
+}
+
+// ioHeadersRoundTrip: the header dictionary written as one map and read back into map[string]interface{}
+func ioHeadersRoundTrip(m map[string]interface{}, writerSimple bool, readerOpts optsJ) (out map[string]interface{}, err string) {
+	p := safely(func() {
+		enc := hio.NewEncoder(nil).Simple(writerSimple)
+		if e := enc.Write(m); e != nil {
+			err = "encode: " + e.Error()
+			return
+		}
+		data := append([]byte{}, enc.Bytes()...)
+		dec := newDecoder(data, readerOpts, false)
+		dec.Decode(&out)
 		if dec.Error != nil {
 			err = dec.Error.Error()
 		}
